@@ -92,6 +92,11 @@ def run(chk):
             chk.violation("%s harness aborted (rc=%s) in a world run (%s) on: %s\n%s" % (r["dead"][0], r["dead"][2], r["cfg"], r["dead"][1], r["dead"][3]), r["log"], key="c02:abort")
             bad += 1
             continue
+        if r.get("spin"):
+            chk.violation("C02 fails on the implementation: the client came back to select() without reading a descriptor that select() had just reported readable (client op %d: %s): with a real select() it spins without ever reaching its timeout branch (no resend, no give-up) (configuration %s, scenario %s)"
+                          % (r["spin"][0], r["spin"][1][:60], r["cfg"], r["scenario"]), r["log"], key="c02:spin")
+            bad += 1
+            continue
         if r["handshake"] != ("ret", 0):
             chk.violation("C02 fails on the implementation: the handshake did not complete on a path that delivers everything intact and promptly (%s): %s" % (r["cfg"], r["handshake"]), r["log"], key="c02:handshake")
             bad += 1
